@@ -1,2 +1,179 @@
-/- stub: line-protocol driver for C12 (to be written) -/
-def main : IO Unit := pure ()
+/- Line-protocol driver for the constness model (property C12).  One query per input line, one canonical answer per line;
+   `harness/c12.cpp` produces the same facts from the real library (see the header of that file for the term syntax).
+
+     ex <EX>                      -> mod= lv= uniq= tmut= tconst= rooted= mutt= pure= sites= ty=<TY>
+     ty <TY>                      -> mut= const= cdecl= clean= isC= isRef= sub=<TY> strip=<TY>
+     field <i> <TY>               -> <TY>                      (get_sub(i))
+     write <KIND> <EX>            -> refused=
+     arg <PARAM-TY> <EX>          -> ref= const= refused=
+     inst <0|1> <PARAM-TY> <EX>   -> refused=                  (first argument: isCompileTimeComputable(arg))
+     binder <site> <TY>           -> mod= ty=<TY>
+-/
+import UtapModel.Model.Const
+open UtapModel UtapModel.Const UtapModel.ConstGen
+
+inductive Tok where
+  | lp | rp | atom (s : String)
+deriving Repr, BEq
+
+def tokenize (s : String) : List Tok := Id.run do
+  let mut out : Array Tok := #[]
+  let mut cur : String := ""
+  for c in s.toList do
+    if c == '(' || c == ')' || c == ' ' || c == '\t' || c == '\n' || c == '\r' then
+      if cur != "" then
+        out := out.push (.atom cur)
+        cur := ""
+      if c == '(' then out := out.push .lp
+      if c == ')' then out := out.push .rp
+    else
+      cur := cur.push c
+  if cur != "" then out := out.push (.atom cur)
+  return out.toList
+
+mutual
+  partial def parseTy : List Tok → Option (Ty × List Tok)
+    | .lp :: .atom k :: rest =>
+      match Kind.ofName? k with
+      | none => none
+      | some kind =>
+        match parseChildren rest with
+        | some (cs, rest') => some (.mk kind cs, rest')
+        | none => none
+    | _ => none
+  partial def parseChildren : List Tok → Option (Children × List Tok)
+    | .rp :: rest => some (.nil, rest)
+    | .atom l :: rest =>
+      match parseTy rest with
+      | some (t, rest') =>
+        match parseChildren rest' with
+        | some (cs, rest'') => some (.cons l t cs, rest'')
+        | none => none
+      | none => none
+    | toks@(.lp :: _) =>
+      match parseTy toks with
+      | some (t, rest') =>
+        match parseChildren rest' with
+        | some (cs, rest'') => some (.cons "" t cs, rest'')
+        | none => none
+      | none => none
+    | [] => none
+end
+
+mutual
+  partial def showTy : Ty → String
+    | .mk k cs => "(" ++ k.name ++ showChildren cs ++ ")"
+  partial def showChildren : Children → String
+    | .nil => ""
+    | .cons l t r => " " ++ (if l == "" then "" else l ++ " ") ++ showTy t ++ showChildren r
+end
+
+def expectRp : List Tok → Option (List Tok)
+  | .rp :: rest => some rest
+  | _ => none
+
+partial def parseEx : List Tok → Option (Ex × List Tok)
+  | .lp :: .atom "id" :: .atom name :: rest => do
+    let (t, r) ← parseTy rest
+    let r ← expectRp r
+    pure (.ident name t, r)
+  | .lp :: .atom "dot" :: .atom i :: rest => do
+    let n ← i.toNat?
+    let (e, r) ← parseEx rest
+    let r ← expectRp r
+    pure (.dot e n, r)
+  | .lp :: .atom "idx" :: .atom c :: rest => do
+    let (e, r) ← parseEx rest
+    let r ← expectRp r
+    pure (.index e (c == "1"), r)
+  | .lp :: .atom "n1" :: .atom k :: rest => do
+    let kind ← Kind.ofName? k
+    let (e, r) ← parseEx rest
+    let r ← expectRp r
+    pure (.unary kind e, r)
+  | .lp :: .atom "n2" :: .atom k :: rest => do
+    let kind ← Kind.ofName? k
+    let (a, r) ← parseEx rest
+    let (b, r) ← parseEx r
+    let r ← expectRp r
+    pure (.binary kind a b, r)
+  | .lp :: .atom "iif" :: .atom eq :: rest => do
+    let (t, r) ← parseTy rest
+    let (c, r) ← parseEx r
+    let (a, r) ← parseEx r
+    let (b, r) ← parseEx r
+    let r ← expectRp r
+    pure (.iif (eq == "1") t c a b, r)
+  | .lp :: .atom "op" :: .atom k :: rest => do
+    let kind ← Kind.ofName? k
+    let (t, r) ← parseTy rest
+    let r ← expectRp r
+    pure (.opaque kind t, r)
+  | _ => none
+
+def b (x : Bool) : String := if x then "1" else "0"
+
+def siteOf : String → Option BinderSite
+  | "forall" => some .forallQ
+  | "exists" => some .existsQ
+  | "sum" => some .sumQ
+  | "iteration" => some .iteration
+  | "select" => some .select
+  | _ => none
+
+def exInfo (e : Ex) : String :=
+  let t := typeOf e
+  s!"mod={b (isModLv e)} lv={b (isLv e)} uniq={b (isUniq e)} tmut={b t.isMutable} tconst={b t.isConstant} " ++
+  s!"rooted={b (constRooted e)} mutt={b (mutTarget e)} pure={b (purePath e)} sites={b (sitesOk e)} ty={showTy t}"
+
+def stepLine (line : String) : String :=
+  match tokenize line with
+  | .atom "ex" :: rest =>
+    match parseEx rest with
+    | some (e, []) => exInfo e
+    | _ => "bad-ex"
+  | .atom "ty" :: rest =>
+    match parseTy rest with
+    | some (t, []) =>
+      s!"mut={b t.isMutable} const={b t.isConstant} cdecl={b t.constDeclared} clean={b t.clean} isC={b (t.is .kCONSTANT)} " ++
+      s!"isRef={b (t.is .kREF)} sub={showTy t.getSub} strip={showTy t.strip}"
+    | _ => "bad-ty"
+  | .atom "field" :: .atom i :: rest =>
+    match i.toNat?, parseTy rest with
+    | some n, some (t, []) => showTy (t.getSubField n)
+    | _, _ => "bad-field"
+  | .atom "write" :: .atom k :: rest =>
+    match Kind.ofName? k, parseEx rest with
+    | some kind, some (e, []) => s!"refused={b (writeRefused kind e)}"
+    | _, _ => "bad-write"
+  | .atom "arg" :: rest =>
+    match parseTy rest with
+    | some (p, rest') =>
+      match parseEx rest' with
+      | some (e, []) => s!"ref={b (p.is .kREF)} const={b p.isConstant} refused={b (argRefused p e)}"
+      | _ => "bad-arg"
+    | none => "bad-arg"
+  | .atom "inst" :: .atom c :: rest =>
+    match parseTy rest with
+    | some (p, rest') =>
+      match parseEx rest' with
+      | some (e, []) => s!"refused={b (instArgRefused p e (c == "1"))}"
+      | _ => "bad-inst"
+    | none => "bad-inst"
+  | .atom "binder" :: .atom s :: rest =>
+    match siteOf s, parseTy rest with
+    | some site, some (t, []) =>
+      let bt := binderType site t
+      s!"mod={b (isModLv (.ident "x" bt))} ty={showTy bt}"
+    | _, _ => "bad-binder"
+  | _ => "bad-op"
+
+partial def loop (h : IO.FS.Stream) (out : IO.FS.Stream) : IO Unit := do
+  let line ← h.getLine
+  if line.isEmpty then return ()
+  out.putStrLn (stepLine line)
+  loop h out
+
+def main : IO Unit := do
+  let out ← IO.getStdout
+  loop (← IO.getStdin) out
